@@ -145,11 +145,14 @@ type terminateCall struct {
 	err      error
 	step     int
 	waitsFor []terminateWait
+	judged   bool
 }
 
 type terminateWait struct {
-	task     *taskModel
-	requeues int
+	task      *taskModel
+	requeues  int
+	workerKey string // queue name + worker key of the worker that ran the task
+	attempt   string
 }
 
 type world struct {
@@ -629,6 +632,83 @@ func actionIDOf(ds *remoteworker.DesiredState_Executing) string {
 		}
 	}
 	return ""
+}
+
+// stepSyncDuplicate sends a second Synchronize call under the worker ID of
+// a worker whose call is still blocked in the scheduler (waiting for work
+// or, when drained, for its drain to be removed). The scheduler has to
+// refuse it: a worker is only ever talked to through one call, otherwise
+// two calls would act on one worker record (C01). Nothing else may change:
+// the first call stays blocked and the snapshot is the same.
+func (w *world) stepSyncDuplicate() bool {
+	var cands []*workerSim
+	for _, wk := range w.workers {
+		if res := wk.inFlight; res != nil {
+			w.mu.Lock()
+			r := res.returned
+			w.mu.Unlock()
+			if !r {
+				cands = append(cands, wk)
+			}
+		}
+	}
+	if len(cands) == 0 {
+		return false
+	}
+	wk := cands[rapid.IntRange(0, len(cands)-1).Draw(w.rt, "worker")]
+	w.m.pre()
+	// pre() may have woken the blocked call up (a time-out that was due).
+	w.mu.Lock()
+	stillBlocked := !wk.inFlight.returned
+	w.mu.Unlock()
+	if !stillBlocked {
+		return true
+	}
+	q := w.cfg.Queues[wk.queue]
+	req := &remoteworker.SynchronizeRequest{
+		WorkerId:           wk.id,
+		InstanceNamePrefix: q.Prefix,
+		Platform:           platforms[q.Platform],
+		SizeClass:          wk.sizeClass,
+		CurrentState:       &remoteworker.CurrentState{WorkerState: &remoteworker.CurrentState_Idle{Idle: &emptypb.Empty{}}},
+	}
+	st := w.record("syncDuplicate", fmt.Sprintf("worker=%d(queue=%d,sc=%d) while its call of step %d is still blocked", wk.idx, wk.queue, wk.sizeClass, wk.inFlight.step))
+	before, _ := w.bq.VerifCheckInvariants()
+	var resp *remoteworker.SynchronizeResponse
+	var err error
+	returned := false
+	ctx, cancel := context.WithCancel(context.Background())
+	defer cancel()
+	go func() {
+		r, e := w.bq.Synchronize(ctx, req)
+		w.mu.Lock()
+		resp, err, returned = r, e, true
+		w.mu.Unlock()
+	}()
+	synctest.Wait()
+	w.mu.Lock()
+	ret, gotErr, gotResp := returned, err, resp
+	firstStillBlocked := !wk.inFlight.returned
+	w.mu.Unlock()
+	if !ret {
+		cancel()
+		synctest.Wait()
+		w.failf("C01: a second Synchronize call for worker %d was admitted (it blocks) while the first one is still blocked", wk.idx)
+	}
+	if status.Code(gotErr) != codes.ResourceExhausted {
+		w.failf("C01: a second Synchronize call for worker %d, made while the first one is still blocked, was answered %v / %v instead of being refused with RESOURCE_EXHAUSTED", wk.idx, gotResp, gotErr)
+	}
+	st.Out = "error: " + status.Code(gotErr).String()
+	if !firstStillBlocked {
+		w.failf("C01: the refused second Synchronize call for worker %d made the first, blocked call return", wk.idx)
+	}
+	after, _ := w.bq.VerifCheckInvariants()
+	if before != nil && after != nil && (before.Counts != after.Counts || len(before.Workers) != len(after.Workers)) {
+		w.failf("C01: the refused second Synchronize call for worker %d changed the scheduler's state: %+v -> %+v", wk.idx, before.Counts, after.Counts)
+	}
+	w.m.label("duplicate_synchronize_refused")
+	w.m.observe()
+	return true
 }
 
 func (w *world) stepCancelSync() bool {
